@@ -746,11 +746,24 @@ KINDS = ["load_metadata", "load_metadata_all", "fetch_offsets", "list_offsets", 
          "produce_messages", "commit_offsets", "fetch_group_offsets", "fetch_group_topic_offset"]
 
 
-def setting_op(g):
+def warm_up(spec):
+    """connects the client to every leader. With an unrepresentable client id a multi-broker call fails while encoding for the
+    first broker of its (hash map) iteration order; if that broker had no connection yet the only trace of the order is a
+    connect event, which the correspondence check cannot feed to the model. The property does not depend on it."""
+    return T("fetch_offsets", [sorted(spec["topics"]), T("latest")])
+
+
+def setting_ops(g, spec):
     rng = g.rng
     k = rng.choice(["client_id", "client_id", "min_bytes", "max_wait", "max_bytes", "compression", "storage"])
     if k == "client_id":
-        return T("set_client_id", [g.string(0.2)])
+        cid = g.string(0.2)
+        return [warm_up(spec), T("set_client_id", [cid])] if len(cid) > I16MAX else [T("set_client_id", [cid])]
+    return [setting_op(g, k)]
+
+
+def setting_op(g, k):
+    rng = g.rng
     if k == "min_bytes":
         g.mark("setting")
         return T("set_fetch_min_bytes", [rng.choice([-1, 0, 1, I32MAX, I32MIN, 65536])])
@@ -816,7 +829,8 @@ def fam_strings(rng):
         for kind in KINDS:
             g = G(rng, "string-client-id")
             spec = plain_cluster(g, rng.choice([1, 2, 3]))
-            ops = boot_ops(spec) + [T("set_group_offset_storage", [rng.choice([0, 1])]), T("set_client_id", [g.name_of_len(L, b"i")]),
+            ops = boot_ops(spec) + [T("set_group_offset_storage", [rng.choice([0, 1])]), warm_up(spec),
+                                    T("set_client_id", [g.name_of_len(L, b"i")]),
                                     normal_op(g, spec, kind), T("set_client_id", [b"ok"]), normal_op(g, spec, kind)]
             cases.append(finish(g, spec, ops))
     # group of every boundary length x group calls x both storages
@@ -927,7 +941,7 @@ def fam_random(rng, n, many=False):
         if rng.random() < 0.85:
             ops.append(T("set_group_offset_storage", [rng.choice([0, 1])]))
         for _ in range(rng.choice([0, 0, 1, 2, 3])):
-            ops.append(setting_op(g))
+            ops += setting_ops(g, spec)
         for _ in range(rng.randint(2, 5)):
             if many:
                 kind = rng.choice(KINDS)
@@ -937,7 +951,7 @@ def fam_random(rng, n, many=False):
                     continue
             ops.append(api_op(g, spec, rng.choice(KINDS)))
             if rng.random() < 0.15:
-                ops.append(setting_op(g))
+                ops += setting_ops(g, spec)
         cases.append(finish(g, spec, ops))
     return cases
 
@@ -997,9 +1011,9 @@ def fam_bootstrap(rng, n):
 def gen(rng, tier):
     quick = tier == "quick"
     cases = fam_strings(rng) + fam_numbers(rng) + fam_settings(rng)
-    cases += fam_random(rng, 300 if quick else 5000)
-    cases += fam_random(rng, 30 if quick else 300, many=True)
-    cases += fam_scripted(rng, 24 if quick else 150)
-    cases += fam_bootstrap(rng, 12 if quick else 60)
+    cases += fam_random(rng, 450 if quick else 12000)
+    cases += fam_random(rng, 40 if quick else 600, many=True)
+    cases += fam_scripted(rng, 24 if quick else 300)
+    cases += fam_bootstrap(rng, 12 if quick else 100)
     cases += fam_wrap(rng)
     return cases
